@@ -2,6 +2,7 @@
 package c18
 
 import (
+	"bytes"
 	"encoding/json"
 	"fmt"
 	"math"
@@ -242,9 +243,15 @@ func prop(c Case) error {
 	}
 	xs := ordinates(g)
 	if c.Format == "wkt" {
-		text, err := wkt.Marshal(t, wkt.EncodeOptionWithMaxDecimalDigits(c.D))
+		// one option slice, used for two calls (callers keep their options around)
+		wopts := []wkt.EncodeOption{wkt.EncodeOptionWithMaxDecimalDigits(c.D)}
+		first, err := wkt.Marshal(t, wopts...)
 		if err != nil {
 			return fmt.Errorf("wkt.Marshal: %v", err)
+		}
+		text, err := wkt.Marshal(t, wopts...)
+		if err != nil || text != first {
+			return fmt.Errorf("wkt.Marshal with the same option slice a second time: %q, %v; the first time %q", clip(text), err, clip(first))
 		}
 		toks, err := refwkt.Tokens(text)
 		if err != nil {
@@ -296,9 +303,14 @@ func prop(c Case) error {
 			opts = append(opts, geojson.EncodeGeometryWithBBox())
 		}
 	}
-	data, err := geojson.Marshal(t, opts...)
+	first, err := geojson.Marshal(t, opts...)
 	if err != nil {
 		return fmt.Errorf("geojson.Marshal: %v", err)
+	}
+	// the same option slice a second time (callers keep their options around)
+	data, err := geojson.Marshal(t, opts...)
+	if err != nil || !bytes.Equal(data, first) {
+		return fmt.Errorf("geojson.Marshal with the same option slice a second time: %s, %v; the first time %s", clip(string(data)), err, clip(string(first)))
 	}
 	if !json.Valid(data) {
 		return fmt.Errorf("invalid JSON: %s", clip(string(data)))
